@@ -31,6 +31,14 @@ def build(plan):
     """plan: dict(op, nodes) -> (schema, query)"""
     from py_gql.schema import Argument, Field, Int, ListType, NonNullType, ObjectType, ScalarType, Schema
     nul = ScalarType("Nul", serialize=lambda v: None if v == "NULLME" else v, parse=lambda v: v)
+
+    def boom_serialize(v):
+        from py_gql.exc import ResolverError
+        raise ResolverError("resolver error at %s" % v, extensions={"node": v})
+    # gamma variant err = "completion": the resolver returns normally and the library's resolver error is raised while the VALUE IS
+    # COMPLETED (a custom scalar's serialiser); the field error is the same: null at that position, one error with that path
+    boom = ScalarType("Boom", serialize=boom_serialize, parse=lambda v: v)
+    in_completion = (plan.get("variant") or {}).get("err") == "completion"
     nodes = plan["nodes"]
     kids = {}
     for i, n in enumerate(nodes, 1):
@@ -51,6 +59,8 @@ def build(plan):
             return ListType(Int)
         if n["out"] == "lnn":
             return ListType(NonNullType(Int))
+        if n["out"] == "err" and in_completion:
+            return boom
         return Int
 
     def args_of(i):
@@ -114,6 +124,8 @@ def behave(plan, n):
     if out == "obj":
         return {"__node__": n}
     if out == "err":
+        if (plan.get("variant") or {}).get("err") == "completion":
+            return n
         if (plan.get("variant") or {}).get("err") == "shared":
             # gamma: every failing resolver of the request raises the SAME exception object (e.g. a module level constant)
             if "_shared_err" not in plan:
